@@ -23,9 +23,20 @@ mod ca { use proto_vulcan::prelude::*; #[compound] pub struct Point(pub LTerm, p
 mod cb { use proto_vulcan::prelude::*; #[compound] pub struct Point(pub LTerm, pub LTerm); }
 fn mk_pa(a: T, b: T) -> T { Into::<T>::into(ca::Point_compound::_InnerPoint::<U, E>(a, b)) }
 fn mk_pb(a: T, b: T) -> T { Into::<T>::into(cb::Point_compound::_InnerPoint::<U, E>(a, b)) }
+// a compound with an Option field: Some(..) and None have different numbers of children
+mod co { use proto_vulcan::prelude::*; #[compound] pub struct Pr(pub LTerm, pub LTerm); #[compound] pub struct Opt(pub Option<Pr>, pub LTerm); }
+/// the term a goal `q == <term>` binds q to (built through the macro syntax, the only way to write a `Some(..)` field)
+fn term_of(q: T, g: proto_vulcan::goal::Goal<U, E>) -> T {
+    let mut solver: proto_vulcan::solver::Solver<U, E> = proto_vulcan::solver::Solver::new((), false);
+    let mut stream = solver.start(&g, State::new(DefaultUser::new()));
+    let st = solver.next(&mut stream).expect("term construction");
+    st.smap_ref().walk(&q).clone()
+}
+fn mk_os(a: T, b: T, c: T) -> T { use proto_vulcan::prelude::*; use co::*; let q: T = LTerm::var("q"); let qq = q.clone(); term_of(qq, proto_vulcan!(q == Opt(Some(Pr(a, b)), c))) }
+fn mk_on(c: T) -> T { Into::<T>::into(co::Opt_compound::_InnerOpt::<U, E>(None, c)) }
 
 #[derive(Clone, Debug, PartialEq, Eq, PartialOrd, Ord)]
-pub enum R { V(usize), N(isize), Nil, Cons(Box<R>, Box<R>), Pair(Box<R>, Box<R>), PA(Box<R>, Box<R>), PB(Box<R>, Box<R>) }
+pub enum R { V(usize), N(isize), Nil, Cons(Box<R>, Box<R>), Pair(Box<R>, Box<R>), PA(Box<R>, Box<R>), PB(Box<R>, Box<R>), /** Opt(Some(Pr(a, b)), c) */ OS(Box<R>, Box<R>, Box<R>), /** Opt(None, c) */ ON(Box<R>) }
 
 impl R {
     fn show(&self) -> String {
@@ -35,6 +46,8 @@ impl R {
             R::Pair(a, b) => format!("<{}, {}>", a.show(), b.show()),
             R::PA(a, b) => format!("ca::Point({}, {})", a.show(), b.show()),
             R::PB(a, b) => format!("cb::Point({}, {})", a.show(), b.show()),
+            R::OS(a, b, c) => format!("Opt(Some(Pr({}, {})), {})", a.show(), b.show(), c.show()),
+            R::ON(c) => format!("Opt(None, {})", c.show()),
         }
     }
     fn build(&self, vars: &[T]) -> T {
@@ -44,6 +57,8 @@ impl R {
             R::Pair(a, b) => (a.build(vars), b.build(vars)).into(),
             R::PA(a, b) => mk_pa(a.build(vars), b.build(vars)),
             R::PB(a, b) => mk_pb(a.build(vars), b.build(vars)),
+            R::OS(a, b, c) => mk_os(a.build(vars), b.build(vars), c.build(vars)),
+            R::ON(c) => mk_on(c.build(vars)),
         }
     }
 }
@@ -57,11 +72,13 @@ fn walk_star(s: &Sub, t: &R) -> R {
         R::Pair(a, b) => R::Pair(Box::new(walk_star(s, &a)), Box::new(walk_star(s, &b))),
         R::PA(a, b) => R::PA(Box::new(walk_star(s, &a)), Box::new(walk_star(s, &b))),
         R::PB(a, b) => R::PB(Box::new(walk_star(s, &a)), Box::new(walk_star(s, &b))),
+        R::OS(a, b, c) => R::OS(Box::new(walk_star(s, &a)), Box::new(walk_star(s, &b)), Box::new(walk_star(s, &c))),
+        R::ON(c) => R::ON(Box::new(walk_star(s, &c))),
         w => w,
     }
 }
 fn occurs(s: &Sub, x: usize, t: &R) -> bool {
-    match walk(s, t) { R::V(j) => j == x, R::Cons(a, b) | R::Pair(a, b) | R::PA(a, b) | R::PB(a, b) => occurs(s, x, &a) || occurs(s, x, &b), _ => false }
+    match walk(s, t) { R::V(j) => j == x, R::Cons(a, b) | R::Pair(a, b) | R::PA(a, b) | R::PB(a, b) => occurs(s, x, &a) || occurs(s, x, &b), R::OS(a, b, c) => occurs(s, x, &a) || occurs(s, x, &b) || occurs(s, x, &c), R::ON(c) => occurs(s, x, &c), _ => false }
 }
 fn unify(s: Sub, a: &R, b: &R) -> Option<Sub> {
     let (a, b) = (walk(&s, a), walk(&s, b));
@@ -72,6 +89,8 @@ fn unify(s: Sub, a: &R, b: &R) -> Option<Sub> {
         (R::N(x), R::N(y)) => if x == y { Some(s) } else { None },
         (R::Nil, R::Nil) => Some(s),
         (R::Cons(h1, t1), R::Cons(h2, t2)) | (R::Pair(h1, t1), R::Pair(h2, t2)) | (R::PA(h1, t1), R::PA(h2, t2)) | (R::PB(h1, t1), R::PB(h2, t2)) => unify(s, h1, h2).and_then(|s| unify(s, t1, t2)),
+        (R::OS(a1, b1, c1), R::OS(a2, b2, c2)) => unify(s, a1, a2).and_then(|s| unify(s, b1, b2)).and_then(|s| unify(s, c1, c2)),
+        (R::ON(c1), R::ON(c2)) => unify(s, c1, c2),
         _ => None,
     }
 }
@@ -84,7 +103,11 @@ fn read(t: &T, vars: &[T]) -> R {
     if t.is_non_empty_list() { return R::Cons(Box::new(read(t.head().unwrap(), vars)), Box::new(read(t.tail().unwrap(), vars))); }
     // compounds: through the Debug text would be fragile; use the structural API of CompoundObject
     if let LTermInner::Compound(c) = t.as_ref() {
-        let kids: Vec<R> = c.children().map(|ch| read(ch.as_term().expect("term child"), vars)).collect();
+        fn flat<'a>(o: &'a dyn proto_vulcan::compound::CompoundObject<U, E>, out: &mut Vec<&'a T>) { for ch in o.children() { match ch.as_term() { Some(t) => out.push(t), None => flat(ch, out) } } }
+        let mut ts: Vec<&T> = vec![]; flat(c.as_ref(), &mut ts);
+        let kids: Vec<R> = ts.iter().map(|k| read(k, vars)).collect();
+        if kids.len() == 3 { return R::OS(Box::new(kids[0].clone()), Box::new(kids[1].clone()), Box::new(kids[2].clone())); }
+        if kids.len() == 1 { return R::ON(Box::new(kids[0].clone())); }
         let (a, b) = (Box::new(kids[0].clone()), Box::new(kids[1].clone()));
         // which compound type: re-build each candidate around the same children and compare with the term itself
         let (ta, tb) = (a.build(vars), b.build(vars));
@@ -102,6 +125,8 @@ fn renaming(a: &[R], b: &[R]) -> bool {
             (R::V(i), R::V(j)) => { if *f.entry(*i).or_insert(*j) != *j { return false; } *g.entry(*j).or_insert(*i) == *i }
             (R::N(x), R::N(y)) => x == y, (R::Nil, R::Nil) => true,
             (R::Cons(a1, a2), R::Cons(b1, b2)) | (R::Pair(a1, a2), R::Pair(b1, b2)) | (R::PA(a1, a2), R::PA(b1, b2)) | (R::PB(a1, a2), R::PB(b1, b2)) => go(a1, b1, f, g) && go(a2, b2, f, g),
+            (R::OS(a1, a2, a3), R::OS(b1, b2, b3)) => go(a1, b1, f, g) && go(a2, b2, f, g) && go(a3, b3, f, g),
+            (R::ON(a1), R::ON(b1)) => go(a1, b1, f, g),
             _ => false,
         }
     }
@@ -194,6 +219,16 @@ pub fn search(tier: &str, _only: Option<&str>) {
         (None, pa(v(0), R::N(2)), pb(R::N(1), v(1))),
         (Some((v(0), pa(R::N(1), R::N(2)))), v(0), pb(R::N(1), R::N(2))),
         (None, v(0), pa(R::N(1), pa(v(0), R::N(2)))),
+        // an Option field: Some(..) against None (different numbers of children), in both orders and through a variable
+        (None, R::OS(Box::new(v(0)), Box::new(R::N(2)), Box::new(R::N(3))), R::ON(Box::new(R::N(3)))),
+        (None, R::ON(Box::new(R::N(3))), R::OS(Box::new(v(0)), Box::new(R::N(2)), Box::new(R::N(3)))),
+        (None, R::ON(Box::new(v(0))), R::ON(Box::new(R::N(3)))),
+        (None, R::OS(Box::new(v(0)), Box::new(R::N(2)), Box::new(v(1))), R::OS(Box::new(R::N(1)), Box::new(R::N(2)), Box::new(R::N(3)))),
+        (None, R::OS(Box::new(R::N(1)), Box::new(R::N(2)), Box::new(R::N(3))), R::OS(Box::new(R::N(1)), Box::new(R::N(1)), Box::new(R::N(3)))),
+        (Some((v(2), R::ON(Box::new(R::N(3))))), v(2), R::OS(Box::new(R::N(1)), Box::new(R::N(2)), Box::new(R::N(3)))),
+        (Some((v(2), R::ON(Box::new(v(1))))), v(2), R::ON(Box::new(R::N(1)))),
+        (None, v(0), R::OS(Box::new(v(0)), Box::new(R::N(1)), Box::new(R::N(2)))),
+        (None, R::ON(Box::new(R::N(3))), pa(R::N(3), R::N(3))),
     ];
     for (pre, a, b) in &deep { case(&mut rep, pre.as_ref().map(|(p, q)| (p, q)), a, b); }
     let pres: Vec<(R, R)> = {
